@@ -411,10 +411,30 @@ impl QueryRouter {
     fn is_mutation_query(q: &sqlparser::ast::Query) -> bool {
         use sqlparser::ast::*;
 
-        match q.body.as_ref() {
+        // Data-modifying CTE: WITH t AS (INSERT/UPDATE ... RETURNING ...) SELECT ...
+        if let Some(with) = &q.with {
+            if with
+                .cte_tables
+                .iter()
+                .any(|cte| Self::is_mutation_query(&cte.query))
+            {
+                return true;
+            }
+        }
+
+        Self::is_mutation_set_expr(q.body.as_ref())
+    }
+
+    fn is_mutation_set_expr(body: &SetExpr) -> bool {
+        match body {
             SetExpr::Insert(_) => true,
             SetExpr::Update(_) => true,
             SetExpr::Query(q) => Self::is_mutation_query(q),
+            // SELECT ... INTO new_table creates a table.
+            SetExpr::Select(select) => select.into.is_some(),
+            SetExpr::SetOperation { left, right, .. } => {
+                Self::is_mutation_set_expr(left) || Self::is_mutation_set_expr(right)
+            }
             _ => false,
         }
     }
